@@ -126,8 +126,8 @@ pub fn applicable(kind: Kind, n: usize) -> Vec<Policy> {
     let mut out: Vec<Policy> = vec![];
     let mut seen: Vec<Vec<usize>> = vec![];
     for p in [Policy::Reverse, Policy::RotateBy1, Policy::OddBeforeEven, Policy::LastFirst] {
-        // only the first few positions are needed to tell these apart, but n
-        // is small enough to compare whole permutations of a prefix model
+        // for n > 8 the four orders are pairwise distinct; below that compare
+        // the permutations themselves (e.g. all four coincide for n = 2)
         let m = n.min(8);
         let perm = permutation(p, m);
         if perm.iter().enumerate().all(|(i, &j)| i == j) || seen.contains(&perm) {
